@@ -15,6 +15,7 @@ import (
 	"reflect"
 	"sort"
 	"strings"
+	"sync"
 	"time"
 
 	"github.com/dgraph-io/badger/v4"
@@ -93,6 +94,14 @@ func genCompactCase(r *rand.Rand) SDCase {
 				hist[ds+"|"+id] = append(hist[ds+"|"+id], e)
 				op.Ents = []model.Ent{e}
 				tags["racing-writer"] = true
+				if r.Intn(2) == 0 {
+					// variant: the writer is inside its critical section (lock held, not yet committed) when the
+					// flush begins, and writes a new version of an entity whose latest version is a duplicate
+					// (so that the flush wants to re-point exactly that latest-version key)
+					c.Ops = append(c.Ops, SDOp{Kind: "inject", DS: ds, To: id})
+					op.To = "inlock"
+					tags["racing-writer-in-lock"] = true
+				}
 			}
 			c.Ops = append(c.Ops, op)
 			tags["compact"] = true
@@ -444,7 +453,48 @@ func (s *sdRun) compactAndCheck(op SDOp) (int, error) {
 	before := s.c12Snapshot(s.commitInstants())
 	worker := dsvc.NewCompactor(s.core.Store, s.core.Dsm, zap.NewNop().Sugar())
 	var racing []model.Ent
-	if len(op.Ents) > 0 {
+	var waitWriter func()
+	inLock := len(op.Ents) > 0 && op.To == "inlock"
+	if inLock {
+		// compaction runs in its own goroutine; at its first flush it starts the writer and waits until the writer
+		// sits inside its critical section (hook ds.store.afterIDCommit: lock held, data not yet committed); the
+		// writer then gives the flush a moment to start (scheduling aid only) and commits
+		racing = op.Ents
+		writerIn := make(chan struct{})
+		writerDone := make(chan struct{})
+		var once, onceW sync.Once
+		vh.OnPoint("compact.beforeFlush", 0, func(name string, hit int64) {
+			once.Do(func() {
+				go func() {
+					defer close(writerDone)
+					if err := StoreBatch(s.core, op.DS, racing, false); err != nil {
+						s.viol("C12", "racing-writer-error", err.Error(), nil, nil)
+					}
+				}()
+				select {
+				case <-writerIn:
+				case <-time.After(5 * time.Second):
+				}
+				s.ctx.Out.Stat("c12_racing_writes_in_lock", 1)
+			})
+		})
+		vh.OnPoint("ds.store.afterIDCommit", 0, func(name string, hit int64) {
+			onceW.Do(func() {
+				close(writerIn)
+				time.Sleep(30 * time.Millisecond)
+			})
+		})
+		defer vh.Clear("compact.beforeFlush")
+		defer vh.Clear("ds.store.afterIDCommit")
+		waitWriter = func() {
+			select {
+			case <-writerDone:
+			case <-time.After(10 * time.Second):
+				s.ctx.Out.Inconclusive(s.id, "C12", "racing writer did not finish within 10 s")
+				s.abort = true
+			}
+		}
+	} else if len(op.Ents) > 0 {
 		racing = op.Ents
 		fired := false
 		vh.OnPoint("compact.beforeFlush", 0, func(name string, hit int64) {
@@ -460,6 +510,12 @@ func (s *sdRun) compactAndCheck(op SDOp) (int, error) {
 		defer vh.Clear("compact.beforeFlush")
 	}
 	stats, err := worker.VerifCompactSync(op.DS, op.Reader)
+	if waitWriter != nil {
+		waitWriter()
+		if s.abort {
+			return 0, nil
+		}
+	}
 	if err != nil {
 		// a compaction that gives up with an error is not a violation of C12 by itself (the statement is about
 		// what readers see); whatever it flushed before giving up must still be invisible, so carry on judging
